@@ -1191,9 +1191,14 @@ def sampling_function(func_or_arr, domain, out_dtype=None):
 
                 # This is a precaution in case out is not contiguous
                 with writable_array(out) as out_arr:
-                    # Flatten tensor axes to work on one tensor
-                    # component (= scalar function) at a time
-                    out_comps = out_arr.reshape((-1,) + scalar_out_shape)
+                    # Work on one tensor component (= scalar function) at
+                    # a time. Index the tensor axes instead of flattening
+                    # them, since reshaping a non-contiguous array makes a
+                    # copy, and then nothing would be written to `out`.
+                    out_comps = (
+                        out_arr[idx + (Ellipsis,)].reshape(scalar_out_shape)
+                        for idx in np.ndindex(*val_shape)
+                    )
                     for f, out_comp in zip(arr, out_comps):
                         if np.isscalar(f):
                             out_comp[:] = f
